@@ -279,8 +279,23 @@ pub fn run(cfg: &J) -> J {
             // decimal literals from components
             let il = rng.gen_range(1..25);
             let fl = if rng.gen_ratio(1, 3) { 0 } else { rng.gen_range(1..25) };
-            let ip: Vec<u8> = (0..il).map(|_| rng.gen_range(0..10)).collect();
-            let fp: Vec<u8> = (0..fl).map(|_| rng.gen_range(0..10)).collect();
+            let mut ip: Vec<u8> = (0..il).map(|_| rng.gen_range(0..10)).collect();
+            let mut fp: Vec<u8> = (0..fl).map(|_| rng.gen_range(0..10)).collect();
+            if fl > 0 && rng.gen_ratio(1, 3) {
+                // runs of zeros: a zero integer part, zeros leading and trailing the fraction (held back by the reader
+                // until a non-zero digit follows)
+                if rng.gen_ratio(2, 3) {
+                    ip = vec![0; rng.gen_range(1..3)];
+                }
+                let mut z = vec![0u8; rng.gen_range(0..48)];
+                z.extend(fp.iter());
+                if rng.gen_ratio(1, 3) {
+                    z.extend(std::iter::repeat(0).take(rng.gen_range(1..30)));
+                    z.push(rng.gen_range(0..10));
+                }
+                fp = z;
+            }
+            let fl = fp.len();
             let has_exp = fl == 0 || rng.gen_ratio(1, 2);
             let exp: i64 = if has_exp { *[0i64, 1, -1, 22, -22, 23, 300, -300, 308, -308, -320, -330, 5, -5, 15].get(rng.gen_range(0..15)).unwrap() + rng.gen_range(-3..4) } else { 0 };
             let neg = rng.gen_ratio(1, 3);
